@@ -6,6 +6,7 @@ import Gimli.Props.C06
 import Gimli.Props.C07
 import Gimli.Props.C08
 import Gimli.Props.C17
+import Gimli.Props.C17Total
 /-!
 # C01 — entry points whose Models belong to other properties
 
@@ -70,5 +71,32 @@ theorem entry_lists_cooked : type_of% @Gimli.Props.C08.cooked_terminates := @Gim
 theorem entry_die_ranges : type_of% @Gimli.Props.C08.die_ranges_total := @Gimli.Props.C08.die_ranges_total
 /-- `UnitIndex::find` probes at most `slot_count` slots -/
 theorem entry_index_find : type_of% @Gimli.Props.C17.find_terminates := @Gimli.Props.C17.find_terminates
+
+/-! ### lookup tables, package index, indexed sections (Models of C17, `Props/C17Total.lean`) -/
+theorem entry_aranges_header : type_of% @Gimli.Props.C17.aranges_header_total := @Gimli.Props.C17.aranges_header_total
+theorem entry_aranges_headers_iter : type_of% @Gimli.Props.C17.aranges_headers_iter_total := @Gimli.Props.C17.aranges_headers_iter_total
+theorem entry_aranges_parse_entry : type_of% @Gimli.Props.C17.aranges_parse_entry_total := @Gimli.Props.C17.aranges_parse_entry_total
+theorem entry_aranges_next : type_of% @Gimli.Props.C17.aranges_next_total := @Gimli.Props.C17.aranges_next_total
+theorem entry_aranges_entries_iter : type_of% @Gimli.Props.C17.aranges_entries_iter_total := @Gimli.Props.C17.aranges_entries_iter_total
+theorem entry_pub_header : type_of% @Gimli.Props.C17.pub_header_total := @Gimli.Props.C17.pub_header_total
+theorem entry_pub_entry : type_of% @Gimli.Props.C17.pub_entry_total := @Gimli.Props.C17.pub_entry_total
+theorem entry_pub_next : type_of% @Gimli.Props.C17.pub_next_total := @Gimli.Props.C17.pub_next_total
+theorem entry_pub_items_iter : type_of% @Gimli.Props.C17.pub_items_iter_total := @Gimli.Props.C17.pub_items_iter_total
+theorem entry_names_header : type_of% @Gimli.Props.C17.names_header_total := @Gimli.Props.C17.names_header_total
+theorem entry_names_headers_iter : type_of% @Gimli.Props.C17.names_headers_iter_total := @Gimli.Props.C17.names_headers_iter_total
+theorem entry_names_abbrevs : type_of% @Gimli.Props.C17.names_abbrevs_total := @Gimli.Props.C17.names_abbrevs_total
+theorem entry_names_new : type_of% @Gimli.Props.C17.names_new_total := @Gimli.Props.C17.names_new_total
+theorem entry_names_accessors : type_of% @Gimli.Props.C17.names_accessors_total := @Gimli.Props.C17.names_accessors_total
+theorem entry_names_lookup : type_of% @Gimli.Props.C17.names_lookup_total := @Gimli.Props.C17.names_lookup_total
+theorem entry_names_bucket_next : type_of% @Gimli.Props.C17.names_bucket_next_total := @Gimli.Props.C17.names_bucket_next_total
+theorem entry_names_bucket_iter : type_of% @Gimli.Props.C17.names_bucket_iter_total := @Gimli.Props.C17.names_bucket_iter_total
+theorem entry_names_entry : type_of% @Gimli.Props.C17.names_entry_total := @Gimli.Props.C17.names_entry_total
+theorem entry_names_entries_iter : type_of% @Gimli.Props.C17.names_entries_iter_total := @Gimli.Props.C17.names_entries_iter_total
+theorem entry_index_parse : type_of% @Gimli.Props.C17.index_parse_total := @Gimli.Props.C17.index_parse_total
+theorem entry_index_sections : type_of% @Gimli.Props.C17.index_sections_total := @Gimli.Props.C17.index_sections_total
+theorem entry_index_find_unit : type_of% @Gimli.Props.C17.index_find_unit_total := @Gimli.Props.C17.index_find_unit_total
+theorem entry_str_offsets : type_of% @Gimli.Props.C17.str_offsets_total := @Gimli.Props.C17.str_offsets_total
+theorem entry_addr : type_of% @Gimli.Props.C17.addr_total := @Gimli.Props.C17.addr_total
+theorem entry_attr_resolution : type_of% @Gimli.Props.C17.attr_resolution_total := @Gimli.Props.C17.attr_resolution_total
 
 end Gimli.Props.C01
